@@ -259,6 +259,15 @@ func faultCatalogue(enc []byte, spans []model.Span, junk uint64, emit func(b []b
 					m[o] = v
 					emit(m, fmt.Sprintf("ascii-highbit@%d", o))
 				}
+				// well-formed multi-byte characters (2, 3 and 4 bytes), also ones whose code point has clear low bits
+				for _, seq := range [][]byte{{0xC4, 0x80}, {0xC5, 0x81}, {0xC3, 0xA9}, {0xE4, 0xB8, 0x80}, {0xE2, 0x82, 0xAC}, {0xF0, 0x90, 0x80, 0x80}} {
+					if s.Len >= len(seq) {
+						at := s.Off + int(junk%uint64(s.Len-len(seq)+1))
+						m := append([]byte(nil), enc...)
+						copy(m[at:], seq)
+						emit(m, fmt.Sprintf("ascii-multibyte@%d", at))
+					}
+				}
 			case model.F4, model.F8:
 				w := model.Width(s.Kind)
 				e := s.Off + (o-s.Off)/w*w
